@@ -12,6 +12,7 @@ from __future__ import annotations
 
 import itertools
 import json
+import zlib
 from unittest.mock import patch
 
 from antismash.common.secmet.features import Module as ModuleFeature
@@ -55,7 +56,7 @@ ASSUMPTIONS = [
 ]
 REQUIRED = ["op:build", "op:module-layout", "op:boundary", "op:reload", "op:reload-legacy", "op:combine",
             "op:combine-merged", "op:combine-refused", "op:merge-expected", "op:pipeline", "op:feature",
-            "op:feature-roundtrip", "op:results-reload", "monitor:build_modules_for_cds", "monitor:combine_modules",
+            "op:feature-roundtrip", "op:results-reload", "class:pipeline-region-across-origin", "monitor:build_modules_for_cds", "monitor:combine_modules",
             "class:complete", "class:incomplete", "class:trans-at", "class:kr-after-carrier",
             "class:double-transporter", "class:loader-as-starter-first", "class:loader-as-starter-not-first",
             "class:merge-trailing-kr", "class:merge-opposite-strands", "class:merge-fused-tail",
@@ -522,23 +523,46 @@ def run_pair(ctx, case):
 GENE_SPACING = 3300
 
 
+def cluster_origin_cut(case) -> int:
+    """ 0, or the slot of the first gene after the origin (1..count-1), decided by a checksum of the case """
+    count = len(case["genes"])
+    if case.get("split_regions") or count < 2:
+        return 0
+    digest = zlib.crc32(json.dumps([g["tokens"] for g in case["genes"]]).encode())
+    if digest % 3:
+        return 0
+    return 1 + (digest // 3) % (count - 1)
+
+
 def build_cluster_record(case):
     """ genes in biological order of the main strand; on the reverse strand the first gene has the
         highest coordinates """
     genes = case["genes"]
     count = len(genes)
-    length = 600 + GENE_SPACING * count
-    record = DummyRecord(seq="A" * length, record_id="c14_record")
+    # a third of the single-region clusters lie on a circular record with the origin between two of their genes
+    # (the region crosses the origin; 2.6 kb of the ring stay outside it)
+    cut = cluster_origin_cut(case)
+    length = 600 + GENE_SPACING * count + (2000 if cut else 0)
+    record = DummyRecord(seq="A" * length, record_id="c14_record", circular=bool(cut))
+    shift = length - (300 + GENE_SPACING * cut - 100) if cut else 0
     placed = []
     for k, gene in enumerate(genes):
         slot = k if case["strand"] == 1 else count - 1 - k
         strand = -case["strand"] if gene.get("flipped") else case["strand"]
         size = G.protein_length(gene["tokens"])
-        start = 300 + GENE_SPACING * slot
+        start = (300 + GENE_SPACING * slot + shift) % length
         cds = DummyCDS(start=start, end=start + 3 * size, strand=strand, locus_tag=f"gene{k}", translation="M" * size)
         record.add_cds_feature(cds)
         placed.append({"cds": cds, "slot": slot, "strand": strand, "tokens": gene["tokens"],
                        "domains": G.make_domains(gene["tokens"])})
+    if cut:
+        first = min((g for g in placed if g["slot"] < cut), key=lambda g: g["slot"])["cds"]
+        last = max((g for g in placed if g["slot"] >= cut), key=lambda g: g["slot"])["cds"]
+        sub = DummySubRegion(start=int(first.location.start) - 50, end=int(last.location.end) + 50, record_length=length)
+        assert sub.location.start == 0 and len(sub.location.parts) == 2, sub.location
+        record.add_subregion(sub)
+        record.add_region(DummyRegion(candidate_clusters=[], subregions=[sub]))
+        return record, placed
     if case.get("split_regions") and count > 1:
         border = 300 + GENE_SPACING * (count // 2) - 100
         spans = [(0, border), (border + 50, length)]
@@ -571,6 +595,8 @@ def run_cluster(ctx, case):
     S.combine_crashed = None
     ctx.count("op:pipeline")
     record, placed = build_cluster_record(case)
+    if record.is_circular():
+        ctx.count("class:pipeline-region-across-origin")
     facts = {"strand": case["strand"], "genes": [g["tokens"] for g in case["genes"]],
              "flipped": [bool(g.get("flipped")) for g in case["genes"]], "split_regions": bool(case.get("split_regions"))}
     S.built_lists = {}
@@ -689,7 +715,17 @@ def run_cluster(ctx, case):
         if got["starter"] != module.is_starter_module():
             wrong.append("starter")
         locs = [d.location for d in feature.domains]
-        if int(feature.location.start) != min(int(l.start) for l in locs) \
+        if len(feature.location.parts) > 1 and record.is_circular():
+            # a module over the origin: the feature covers its domains and nothing outside the arc from the first
+            # pre-origin domain to the last post-origin one (the strand of such a location is not specified)
+            ctx.count("class:module-feature-across-origin")
+            pre = [l for l in locs if int(l.start) >= len(record.seq) // 2]
+            post = [l for l in locs if int(l.start) < len(record.seq) // 2]
+            parts = sorted((int(p.start), int(p.end)) for p in feature.location.parts)
+            if not pre or not post or parts != [(0, max(int(l.end) for l in post)),
+                                                (min(int(l.start) for l in pre), len(record.seq))]:
+                wrong.append("location")
+        elif int(feature.location.start) != min(int(l.start) for l in locs) \
                 or int(feature.location.end) != max(int(l.end) for l in locs) \
                 or feature.location.strand != by_name[module.components[0].locus]["strand"]:
             wrong.append("location")
